@@ -53,7 +53,7 @@ func main() {
 	run := ev.Start("C04", "model_checking")
 	keys := []string{"a", "b", "c"}
 	F, P := 1, 1
-	budget := 160 * time.Second
+	budget := 240 * time.Second
 	if run.Thorough() {
 		F, P = 2, 2
 		budget = 35 * time.Minute
